@@ -19,7 +19,7 @@ func detProfile() vcase.Profile {
 		DeployFail: true, DeployOdd: true, Foreach: true, Tags: true, Enabled: true, WaitFor: true, DeployTag: true,
 		Funcs: true, EngineOuts: true, MaxOutputs: 4, MaxDelayMs: 12,
 		// classes that were excluded while findings K2s / K3 were open (fixed now)
-		IntArithOnOutputs: true, StructFieldRefs: true, LiteralEnabled: true, ClosedRefs: true,
+		IntArithOnOutputs: true, StructFieldRefs: true, LiteralEnabled: true, ClosedRefs: true, RichInput: true,
 	}
 }
 
